@@ -121,7 +121,7 @@ func lifeAlpha(o AlphaOpts) func(sc *Scenario, v *View) []Action {
 		out = append(out, o.BindOps...)
 		for _, ps := range o.ParamChanges {
 			p := ps
-			if v.Params.MaxRequestTimeout == p.MaxTimeout && v.Params.ServiceFeeTax.Equal(sdk.MustNewDecFromStr(p.Tax)) && v.Params.SlashFraction.Equal(sdk.MustNewDecFromStr(p.Slash)) && v.Params.MinDeposit.AmountOf(denom).Int64() == p.MinDeposit && v.Params.MinDepositMultiple == p.Multiple && v.Params.BaseDenom == p.baseDenom() &&
+			if v.Params.MaxRequestTimeout == p.MaxTimeout && v.Params.ServiceFeeTax.Equal(sdk.MustNewDecFromStr(p.Tax)) && v.Params.SlashFraction.Equal(sdk.MustNewDecFromStr(p.Slash)) && v.Params.MinDeposit.AmountOf(denom).Int64() == p.MinDeposit && p.MinDepositCoins == nil && v.Params.MinDepositMultiple == p.Multiple && v.Params.BaseDenom == p.baseDenom() &&
 				v.Params.ArbitrationTimeLimit == p.Arbitration && v.Params.ComplaintRetrospect == p.Complaint {
 				continue // already in force
 			}
@@ -246,7 +246,7 @@ func scBind(ps ParamSet, ops []Action, tmpls []Template, respKinds []string, dep
 		Funds: []Funding{{O1, 100}, {O2, 100}, {C1, 60}, {P1, 50}, {P2, 50}}, Extra: allAccounts,
 		Setup:     []Action{actDefine("a", "AU")},
 		Templates: tmpls,
-		Alpha:     lifeAlpha(AlphaOpts{RespKinds: respKinds, BindOps: ops, SetW: []string{"O1:W1"}}),
+		Alpha:     lifeAlpha(AlphaOpts{RespKinds: respKinds, BindOps: ops, SetW: []string{"O1:W1", "O1:DEP"}, Withdraw: []string{"O1:"}}), // DEP: the module's own deposit account (refused)
 		Depth:     depth, MaxBlocks: blocks, MaxMsgs: msgs,
 	}
 }
@@ -737,5 +737,17 @@ func scManyProviders(ps ParamSet, depth, blocks, msgs int) *Scenario {
 	sc.Templates = []Template{{Name: "manyp", Consumer: "C1", Service: "a", Providers: []string{"PM"}, Cap: 5, Timeout: 2}}
 	sc.Alpha = lifeAlpha(AlphaOpts{RespKinds: []string{"ok"}, ShortSigners: true, Withdraw: []string{"O1:", "O1:PM"}})
 	sc.Setup = append(sc.Setup, sc.actCall(0), actE())
+	return sc
+}
+
+// scLazyAccounts: the module's escrow and deposit accounts do not exist yet when the chain starts (they are created on
+// first use); owners name them as withdrawal addresses before and after that.
+func scLazyAccounts(ps ParamSet, depth, blocks, msgs int) *Scenario {
+	sc := &Scenario{Name: "S-FEES(module accounts created on first use)", Params: ps, Rig: RigConfig{LazyServiceAccounts: true},
+		Funds: []Funding{{O1, 100}, {C1, 20}}, Extra: allAccounts,
+		Setup:     []Action{actDefine("a", "AU")},
+		Templates: []Template{{Name: "lazy", Consumer: "C1", Service: "a", Providers: []string{"P1"}, Cap: 5, Timeout: 2}},
+		Depth:     depth, MaxBlocks: blocks, MaxMsgs: msgs}
+	sc.Alpha = lifeAlpha(AlphaOpts{RespKinds: []string{"ok"}, SetW: []string{"O1:REQ", "O1:DEP"}, Withdraw: []string{"O1:"}, BindOps: []Action{actBind("a", "P1", "O1", 10, "p2", 1)}})
 	return sc
 }
